@@ -106,6 +106,7 @@ def handle : List String → String
   | "httpmap" :: rest => handleMap rest
   | "httphdr" :: rest => handleHdr rest
   | "httprwm" :: rest => handleRwm rest
+  | "httphost" :: rest => handleHost rest
   | ["zoo", _, _, _] => "zoo"      -- oracle-only stream (real provisioned server); nothing to model
   | _ => "bad-op"
 
